@@ -124,6 +124,10 @@ func httpTeardown() {
 var lastAnswer string
 
 func doRaw(addr, query string, hdr []string, wire [][]byte, abort bool) int {
+	return doRawPath(addr, "/write", query, hdr, wire, abort)
+}
+
+func doRawPath(addr, path, query string, hdr []string, wire [][]byte, abort bool) int {
 	lastAnswer = ""
 	conn, err := net.DialTimeout("tcp", addr, 10*time.Second)
 	if err != nil {
@@ -132,7 +136,7 @@ func doRaw(addr, query string, hdr []string, wire [][]byte, abort bool) int {
 	defer conn.Close()
 	_ = conn.SetDeadline(time.Now().Add(30 * time.Second))
 	var sb strings.Builder
-	sb.WriteString("POST /write?" + query + " HTTP/1.1\r\nHost: c06\r\nConnection: close\r\n")
+	sb.WriteString("POST " + path + "?" + query + " HTTP/1.1\r\nHost: c06\r\nConnection: close\r\n")
 	for _, h := range hdr {
 		sb.WriteString(h + "\r\n")
 	}
